@@ -1,4 +1,5 @@
 import Driver.Layout
 import Driver.Paginate
 import Driver.Util
+import Driver.Validate
 import Driver.Widths
